@@ -183,7 +183,11 @@ func (c *tcase) line() string {
 	var b strings.Builder
 	fmt.Fprintf(&b, "%d %s %d %d %d", b01(c.norm), c.cmd, c.latest, b01(c.changes), len(c.db))
 	for _, o := range c.db {
-		fmt.Fprintf(&b, " %s %s %s %d", o.kind, hx(o.name), hx(o.tbl), o.rows)
+		k := o.kind
+		if k == "x" || k == "y" {
+			k = "t" // a virtual table is a sqlite_master row of type 'table'
+		}
+		fmt.Fprintf(&b, " %s %s %s %d", k, hx(o.name), hx(o.tbl), o.rows)
 	}
 	fmt.Fprintf(&b, " %s %s %s", dirTokens(c.dir), c.from.tokens(), c.to.tokens())
 	return b.String()
@@ -206,6 +210,9 @@ var starts = []startState{
 	{"hidden-libsql", []obj{{"t", "libsql_users", "libsql_users", 2}}},
 	{"hidden-sqlitedb", []obj{{"t", "sqlitedb", "sqlitedb", 1}, {"i", "i9", "sqlitedb", 0}}},
 	{"hidden-seq", []obj{{"t", "sqlite_sequence", "sqlite_sequence", 0}}},
+	// only virtual tables (kind "x": sqlite_master.type = 'table', so a KTable for the model) and their shadow tables
+	{"virtual", []obj{{"x", "vt9", "vt9", 2}}},
+	{"virtual-fts", []obj{{"y", "ft9", "ft9", 1}}},
 }
 
 func startByName(n string) startState {
@@ -248,6 +255,16 @@ func createStart(path string, st startState) error {
 				stmts = append(stmts, fmt.Sprintf("CREATE TABLE %s (id INTEGER PRIMARY KEY, v TEXT)", o.name))
 				for r := 1; r <= o.rows; r++ {
 					stmts = append(stmts, fmt.Sprintf("INSERT INTO %s (id, v) VALUES (%d, 'row%d')", o.name, r, r))
+				}
+			case "x":
+				stmts = append(stmts, fmt.Sprintf("CREATE VIRTUAL TABLE %s USING rtree(id, minx, maxx)", o.name))
+				for r := 1; r <= o.rows; r++ {
+					stmts = append(stmts, fmt.Sprintf("INSERT INTO %s VALUES (%d, %d, %d)", o.name, r, r, r+1))
+				}
+			case "y":
+				stmts = append(stmts, fmt.Sprintf("CREATE VIRTUAL TABLE %s USING fts4(body)", o.name))
+				for r := 1; r <= o.rows; r++ {
+					stmts = append(stmts, fmt.Sprintf("INSERT INTO %s (body) VALUES ('row%d')", o.name, r))
 				}
 			case "i":
 				stmts = append(stmts, fmt.Sprintf("CREATE INDEX %s ON %s (v)", o.name, o.tbl))
